@@ -186,3 +186,105 @@ Proof.
   match goal with H : succ _ (TakeUntil _ _) _ _ _ |- _ => apply inv_take_until in H; [|discriminate]; destruct H as [x [-> [H1 [H2 _]]]] end.
   exists x. split; [reflexivity|split; assumption].
 Qed.
+
+(** ** CDSect, PI *)
+Lemma inv_multichar0 s t r : S (NT nt_multichar0) s t r -> S (Chars0 is_char) s t r.
+Proof. intros H. inv_nt H body_multichar0. assumption. Qed.
+
+Lemma inv_take_until_mc pat s t r : pat <> [] -> S (TakeUntil (NT nt_multichar0) pat) s t r ->
+  exists x : str, t = TStr x /\ forallb (eval is_char) x = true /\ find_sub pat x = None /\ suffix_of r s
+                  /\ (forall c x', x = c :: x' -> exists s', s = c :: s').
+Proof.
+  intros Hp H. apply (inv_take_until is_char pat s t r Hp). inv H.
+  - match goal with H1 : succ _ (NT nt_multichar0) _ _ _, H2 : find_sub _ _ = None |- _ =>
+      exact (s_take_until_none G_xml _ _ _ _ _ _ eq_refl (inv_multichar0 _ _ _ H1) H2) end.
+  - match goal with H1 : succ _ (NT nt_multichar0) _ _ _, H2 : find_sub _ _ = Some _ |- _ =>
+      exact (s_take_until_cut G_xml _ _ _ _ _ _ _ eq_refl (inv_multichar0 _ _ _ H1) H2) end.
+Qed.
+
+Lemma inv_cdsect s t r : S (NT nt_cdsect) s t r -> exists d : str, eval_tree t = VCData d /\ cdata_ok d.
+Proof.
+  intros H. inv_nt H body_cdsect. invs.
+  match goal with H : succ _ (TakeUntil _ _) _ _ _ |- _ => apply inv_take_until_mc in H; [|discriminate]; destruct H as [x [-> [Hx1 [Hx2 _]]]] end.
+  exists x. split; [reflexivity|split; assumption].
+Qed.
+
+Lemma inv_pi_target s t r : S (NT nt_pi_target) s t r -> exists n : str, t = TStr n /\ pi_target_ok n.
+Proof.
+  intros H. inv_nt H body_pi_target. invs.
+  match goal with H : succ _ (NT nt_name) _ _ _ |- _ => apply inv_name in H; destruct H as [n [_ [Hn [E _]]]] end.
+  match goal with H : ?v ++ ?r = ?n ++ ?r |- _ => apply app_inv_tail in H; subst v end.
+  eexists. split; [reflexivity|]. split; assumption.
+Qed.
+
+Lemma inv_pi s t r : S (NT nt_pi) s t r -> exists p, eval_tree t = VPI p /\ pi_ok p.
+Proof.
+  intros H. inv_nt H body_pi. invs.
+  - (* with data *)
+    match goal with H : succ _ (NT nt_pi_target) _ _ _ |- _ => apply inv_pi_target in H; destruct H as [n [-> Hn]] end.
+    match goal with H : succ _ (TakeUntil _ _) _ _ _ |- _ => apply inv_take_until_mc in H; [|discriminate]; destruct H as [x [-> [Hx1 [Hx2 [_ Hx4]]]]] end.
+    exists (PI n (Some x)). split; [reflexivity|]. split; [exact Hn|]. cbn [pi_value]. repeat split; try assumption.
+    destruct x as [|c x']; [exact I|]. cbn [stops]. destruct (Hx4 c x' eq_refl) as [s' ->].
+    match goal with H : stops (eval ws) (c :: s') |- _ => exact H end.
+  - match goal with H : succ _ (NT nt_pi_target) _ _ _ |- _ => apply inv_pi_target in H; destruct H as [n [-> Hn]] end.
+    exists (PI n None). split; [reflexivity|]. split; [exact Hn|exact I].
+Qed.
+
+(** ** Comment *)
+Lemma comment_okb_app (a b : str) : comment_okb a = true -> (a = [] \/ exists a' x, a = a' ++ [x] /\ eval nondash x = true) ->
+  comment_okb b = true -> comment_okb (a ++ b) = true.
+Proof.
+  intros Ha Hend Hb. induction a as [|x a IH]; [exact Hb|].
+  cbn [app comment_okb] in *. apply andb_prop in Ha. destruct Ha as [Hx Ha].
+  assert (a = [] \/ exists a' y, a = a' ++ [y] /\ eval nondash y = true) as Hend'.
+  { destruct Hend as [E|[a' [y [E Hy]]]]; [discriminate|]. destruct a' as [|z a'']; cbn [app] in E; injection E as -> ->; [left; reflexivity|].
+    right. exists a'', y. split; [reflexivity|exact Hy]. }
+  rewrite (IH Ha Hend'), andb_true_r. destruct (x =? 45) eqn:E45.
+  - destruct a as [|y a']; [discriminate|]. exact Hx.
+  - exact Hx.
+Qed.
+
+Lemma nondash_run_ok (a : str) : a <> [] -> forallb (eval nondash) a = true ->
+  comment_okb a = true /\ exists a' x, a = a' ++ [x] /\ eval nondash x = true.
+Proof.
+  intros Hne Ha. split.
+  - clear Hne. induction a as [|x a IH]; [reflexivity|]. cbn [forallb comment_okb] in *. apply andb_prop in Ha. destruct Ha as [Hx Ha].
+    rewrite (IH Ha), andb_true_r. destruct (N.eqb_spec x 45) as [->|]; [vm_compute in Hx; discriminate|exact Hx].
+  - destruct (exists_last Hne) as [a' [x ->]]. exists a', x. split; [reflexivity|].
+    rewrite forallb_app in Ha. apply andb_prop in Ha. destruct Ha as [_ Ha]. cbn in Ha. rewrite andb_true_r in Ha. exact Ha.
+Qed.
+
+Lemma inv_cm_many s ts r : SM cm_item s ts r ->
+  exists c : str, s = c ++ r /\ comment_okb c = true /\ (c = [] \/ exists c' x, c = c' ++ [x] /\ eval nondash x = true).
+Proof.
+  intros H. remember cm_item as e eqn:Ee. induction H as [e s|e s t r1 ts r Hs Hlt Hm IH]; subst e.
+  - exists []. repeat split. left. reflexivity.
+  - destruct (IH eq_refl) as [c2 [-> [Hc2 Hend2]]]. unfold cm_item in Hs. invs.
+    + (* '-' run *)
+      match goal with H : forallb (eval (is_char_except [45])) ?a = true, Hn : ?a <> [] |- _ =>
+        destruct (nondash_run_ok a Hn H) as [Hok [a' [x [Ea Hx]]]] end.
+      exists (45 :: a ++ c2). split; [cbn [app]; rewrite <- app_assoc; reflexivity|]. split.
+      * change (45 :: a ++ c2) with ((45 :: a) ++ c2). apply comment_okb_app; [| |exact Hc2].
+        -- cbn [comment_okb]. rewrite Hok, andb_true_r. destruct a as [|y a0]; [contradiction|].
+           match goal with H : forallb _ (y :: a0) = true |- _ => cbn [forallb] in H; apply andb_prop in H; destruct H as [Hy _] end. exact Hy.
+        -- right. exists (45 :: a'), x. rewrite Ea. split; [reflexivity|exact Hx].
+      * right. destruct Hend2 as [->|[c' [y [-> Hy]]]].
+        -- exists (45 :: a'), x. rewrite Ea, app_nil_r. split; [reflexivity|exact Hx].
+        -- exists (45 :: a ++ c'), y. split; [cbn [app]; rewrite <- app_assoc; reflexivity|exact Hy].
+    + (* run *)
+      match goal with H : forallb (eval (is_char_except [45])) ?a = true, Hn : ?a <> [] |- _ =>
+        destruct (nondash_run_ok a Hn H) as [Hok [a' [x [Ea Hx]]]] end.
+      exists (a ++ c2). split; [rewrite <- app_assoc; reflexivity|]. split.
+      * apply comment_okb_app; [exact Hok| |exact Hc2]. right. exists a', x. split; assumption.
+      * right. destruct Hend2 as [->|[c' [y [-> Hy]]]].
+        -- exists a', x. rewrite app_nil_r. split; assumption.
+        -- exists (a ++ c'), y. split; [rewrite <- app_assoc; reflexivity|exact Hy].
+Qed.
+
+Lemma inv_comment s t r : S (NT nt_comment) s t r -> exists c : str, eval_tree t = VComment c /\ comment_ok c.
+Proof.
+  intros H. inv_nt H body_comment. fold cm_item in *. invs.
+  match goal with H : succ_many _ cm_item _ _ _ |- _ => destruct (inv_cm_many _ _ _ H) as [c0 [E [Hok _]]] end.
+  match goal with H : ?c ++ ?r = ?c0 ++ ?r |- _ => apply app_inv_tail in H; subst c end.
+  eexists. split; [reflexivity|exact Hok].
+Qed.
